@@ -958,6 +958,10 @@ func writeComment(w *iohelp.ErrorWriter, depth int, comment string, settings Gen
 				continue
 			}
 		}
+		if strings.HasPrefix(cm, "go:") || strings.HasPrefix(cm, "line ") || strings.HasPrefix(cm, "export ") || strings.HasPrefix(cm, "extern ") {
+			// a schema comment must stay a comment: '//go:noinline' and friends would be compiler directives
+			cm = " " + cm
+		}
 		writeLine(w, tbs+"//%s", cm)
 	}
 }
